@@ -188,6 +188,44 @@ impl digest::FixedOutputReset for ChosenDigest {
     }
 }
 
+/// A second 64-byte message digest for the prehash position (the Ed25519ph entry points are generic over it):
+/// SHA-512 of the input followed by the byte 0xA5.
+#[derive(Clone, Default)]
+pub struct AltDigest {
+    inner: sha2::Sha512,
+}
+pub const ALT_SUFFIX: u8 = 0xa5;
+impl digest::HashMarker for AltDigest {}
+impl digest::OutputSizeUser for AltDigest {
+    type OutputSize = digest::consts::U64;
+}
+impl digest::Update for AltDigest {
+    fn update(&mut self, data: &[u8]) {
+        digest::Update::update(&mut self.inner, data);
+    }
+}
+impl digest::FixedOutput for AltDigest {
+    fn finalize_into(mut self, out: &mut digest::Output<Self>) {
+        digest::Update::update(&mut self.inner, &[ALT_SUFFIX]);
+        digest::FixedOutput::finalize_into(self.inner, out);
+    }
+}
+impl digest::Reset for AltDigest {
+    fn reset(&mut self) {
+        digest::Reset::reset(&mut self.inner);
+    }
+}
+impl digest::FixedOutputReset for AltDigest {
+    fn finalize_into_reset(&mut self, out: &mut digest::Output<Self>) {
+        let me = core::mem::take(self);
+        digest::FixedOutput::finalize_into(me, out);
+    }
+}
+/// `data` fed to an AltDigest in the given chunk sizes
+pub fn alt_chunked(data: &[u8], chunks: &[u16]) -> AltDigest {
+    AltDigest { inner: sha512_chunked(data, chunks) }
+}
+
 /// the model's view of the same stub
 pub struct ChosenH(pub VecDeque<[u8; 64]>);
 impl refmodel::eddsa::H512 for ChosenH {
